@@ -70,6 +70,7 @@ type Spec[C any] struct {
 	EnumOnlyShard0 bool        // enumeration is only done by shard 0 in sharded runs
 	Rule     string            // non-triviality rule in words
 	NoRecover bool             // do not recover panics in Run (engine handles them itself)
+	ShrinkSeconds int          // time limit for rapid's shrinking (default 20 s; lower for engines with slow cases)
 }
 
 // ---------------------------------------------------------------------------
@@ -577,9 +578,11 @@ func Run[C any](t *testing.T, s Spec[C]) {
 	_ = flag.Set("rapid.checks", strconv.Itoa(n))
 	_ = flag.Set("rapid.seed", strconv.FormatUint(RapidSeed(s.Name), 10))
 	_ = flag.Set("rapid.nofailfile", "true")
-	if flag.Lookup("rapid.shrinktime").Value.String() == "30s" {
-		_ = flag.Set("rapid.shrinktime", "20s")
+	shrink := 20
+	if s.ShrinkSeconds > 0 {
+		shrink = s.ShrinkSeconds
 	}
+	_ = flag.Set("rapid.shrinktime", fmt.Sprintf("%ds", shrink))
 	var lastFail *Finding
 	var lastCase C
 	haveFail := false
